@@ -21,6 +21,9 @@ EDGE = [
     'x, [5.., ..=2, 3]', 'x, [..5]', 'x, (.., 1)', 'x, Some(..)', 'x, #{ "k": .., .. }', 'x, S { r#type: 1, r#match.len(): 2, .. }',
     'x, E::V { r#fn: "s" }', 'x, _ { r#type: 1, .. }', 'x, _ { 4294967295: 1, .. }', 'x, S { a.4294967295: 1, .. }', 'x, (4294967295: 1)',
     'x, #{ "k": _ { a: 1 } }', 'x, Some(_ { a: 1 })', 'x, [_ { a: 1 }]', 'x, (_ { a: 1 }, 2)', 'x, #(_ { a: 1 })', 'x, S { f: _ { a: 1 } }', 'x, #{ "k": [_ { a: 1 }], .. }', 'x, _ { f: _ { a: 1 }, .. }',
+    # long pattern texts, ASCII and multi-byte, of lengths around every plausible cut-off (a node stores the text of its pattern)
+    ] + ['x, S { a: "%s" }' % (ch * n) for ch in ("a", "é", "日", "😀") for n in (40, 43, 62, 64, 85, 126, 128, 130, 256, 300)] + [
+    'x, S { a: == "%s", b: > %s, c: =~ r"%s", d: |v| v == "%s" }' % ("日" * 50, "9" * 140, "ü" * 70, "ж" * 90), 'x, #{ "%s": 1, .. }' % ("é" * 100), "x, %s::V" % "::".join(["m"] * 70),
     'x, S { inner.inner.id: 1, next.next.next: 2, a.b.a: 3, .. }', 'x, _ { inner.inner.id: 1, 0.0: 2, .. }', 'x, (0.0: 1, 1.1.1: 2)', 'x, S { a.a(): 1, b.m().b: 2, *c.c: 3, .. }',
     'x, =~ ("re")', 'x, =~ (("re"))', 'x, =~ (re)', 'x, S { a.m(1, 2, 3): 4, b.n("x", y, z + 1).0: 5, .. }', 'x, (p)', 'x, ((p))', 'x, (_)', 'x, S { a: (> 5), b: (_), c: ((1, 2)) }',
     'x, #(5.., 1)', 'x, #(1, 5..)', 'x, #(1..3, ..)', 'x, [5.., 1]', 'x, S { r#type: 1, r#type.r#match: 2, .. }', 'x, S { a.0.1: 1, a.1.0: 2, a.2.0.1: 3, a.clone().1.0: 4, .. }', 'x, (0.1.0: 1, 1.0: 2)',
